@@ -574,6 +574,9 @@ func c07MutateKV(kv dns.SVCBKeyValue) {
 }
 
 func c07MutateRR(rr dns.RR) {
+	if rr == nil {
+		return
+	}
 	h := rr.Header()
 	if h.Rrtype != dns.TypeOPT {
 		h.Name = "m." + h.Name
@@ -670,6 +673,8 @@ func (c *c07Canon) kvs(vs []dns.SVCBKeyValue) {
 	c.u(uint64(len(vs)))
 	for _, kv := range vs {
 		switch v := kv.(type) {
+		case nil:
+			c.s("<nil value> ")
 		case *dns.SVCBMandatory:
 			c.s("mandatory=")
 			c.u(uint64(len(v.Code)))
@@ -770,6 +775,8 @@ func (c *c07Canon) rr(rr dns.RR) {
 		c.u(uint64(len(v.Option)))
 		for _, o := range v.Option {
 			switch o := o.(type) {
+			case nil:
+				c.s("<nil option> ")
 			case *dns.EDNS0_COOKIE:
 				c.s("cookie ")
 				c.u(uint64(o.Code))
@@ -809,7 +816,16 @@ var c07SecNames = [3]string{"answer", "authority", "additional"}
 // empty lists are deliberately not distinguished (they are the same DNS
 // message; the fallback through dns.Copy does not preserve the difference and
 // the cloner's tests say so).
-func c07Value(m *dns.Msg) string {
+func c07Value(m *dns.Msg) (s string) {
+	// A message damaged by the cloner may be unreadable (nil options).
+	if p := vrt.Catch(func() { s = c07ValueRaw(m) }); p != "" {
+		return "unreadable message, panic while reading: " + p
+	}
+
+	return s
+}
+
+func c07ValueRaw(m *dns.Msg) string {
 	c := &c07Canon{b: make([]byte, 0, 1024)}
 	c.s("header id=")
 	c.u(uint64(m.Id))
@@ -852,13 +868,19 @@ func c07Value(m *dns.Msg) string {
 }
 
 // c07Pack returns the wire form of m, or the error.
-func c07Pack(m *dns.Msg) string {
-	b, err := m.Pack()
-	if err != nil {
-		return "pack error: " + err.Error()
+func c07Pack(m *dns.Msg) (s string) {
+	if p := vrt.Catch(func() {
+		b, err := m.Pack()
+		if err != nil {
+			s = "pack error: " + err.Error()
+		} else {
+			s = string(b)
+		}
+	}); p != "" {
+		return "pack panic: " + p
 	}
 
-	return string(b)
+	return s
 }
 
 // c07Component names the first differing component of two canonical values:
